@@ -608,6 +608,14 @@ class PanicAnalysis:
             ok, why = self.oneshot_always_replied(oc)
             if not ok:
                 return None
+        if s.root.startswith("store::Store::"):
+            # "parks" is only as good as the store's obligation discipline: a parked sender is answered by the write of its key and is
+            # never dropped or replaced in between (C16.T3 every removed waiter answered, T4 parking, T6 obligations only appended to)
+            req = ["C16.T3", "C16.T4", "C16.T6"]
+            failed = [r for r in req if not self.auth_status.get(r, False)]
+            if failed:
+                s.detail = "the reply to a parked notify_read is guaranteed by %s, but %s do not pass on this tree" % (req, failed)
+                return None
         return ("PEER", "oneshot reply on %s: carried to an immortal actor that replies (or parks) on every path" % sorted(chans))
 
     def oneshot_always_replied(self, oc):
